@@ -58,6 +58,28 @@ pub enum Tamper {
     /// the key object is made to hold (x, 0), which is on no curve y^2 = x^3 + ax + b' that has the same group law formulas as a point of order two
     /// ([t](x,0) = O for even t), and (r, s) is forged without any private key: r = (e' + x([s]G)) mod n with r + s even; e' hashed over (x, 0)
     KeyOrderTwoForged(u64),
+    /// a forgery made with the signer's own private key that is consistent in everything but the last comparison: r' = (e + x1 + delta) mod n for displacement #i of
+    /// `displacements`, s' = (k - r' d)(1+d)^-1, so that [s']G + [r'+s']P is again [k]G with abscissa x1 — only the comparison R == r' tells it from a valid signature
+    DisplacedR(u8),
+}
+
+/// Displacements of r that a comparison done in the wrong ring, in projective coordinates or on the wrong quantity could let through (all non-zero modulo n).
+pub fn displacements(e: &BigUint, x1: &BigUint) -> Vec<BigUint> {
+    let pr = r2::params();
+    let (n, p): (&BigUint, &BigUint) = (&pr.n, &pr.p);
+    let pmn = p - n;
+    let two256: BigUint = BigUint::one() << 256usize;
+    let m = |v: BigUint| v % n;
+    let neg = |v: BigUint| (n - v % n) % n;
+    let mut v = vec![
+        BigUint::one(), neg(BigUint::one()), BigUint::from(2u32), neg(BigUint::from(2u32)),
+        m(pmn.clone()), neg(pmn.clone()), m(&pmn * 2u32), neg(&pmn * 2u32), m(p.clone()),
+        m(&two256 - p), neg(&two256 - p), m(&two256 - n), neg(&two256 - n), m(two256.clone()),
+        BigUint::one() << 255, BigUint::one() << 128, BigUint::one() << 64, BigUint::one() << 32, n >> 1, (n >> 1) + 1u32,
+        m(x1.clone()), neg(x1.clone()), neg(x1 * 2u32), m(e.clone()), neg(e.clone()), neg(e + x1), m((e + x1) % n), m(p - x1 % p), m(from_be(&r2::xy(&pr.g).unwrap().0)),
+    ];
+    v.retain(|d| !(d % n).is_zero());
+    v
 }
 
 fn edges() -> Vec<BigUint> {
@@ -266,6 +288,24 @@ pub fn check(c: &Case) -> CaseResult {
             put(&mut sig, 1, &ss);
             class = "off-curve-key-order-two-forgery";
         }
+        Tamper::DisplacedR(i) => {
+            let d = from_be(&c.base.d);
+            let k = from_be(&c.base.k);
+            let (id_b0, _) = id_bytes(c.base.id);
+            let e = r2::digest(id_b0, &bd.pk, &msg);
+            let x1 = from_be(&r2::xy(&r2::g_mul(&k)).unwrap().0);
+            let ds = displacements(&e, &x1);
+            let delta = &ds[*i as usize % ds.len()];
+            let rr = (&e + &x1 + delta) % n;
+            let inv = crate::refimpl::field::mod_inv(&((&d + 1u32) % n), n).unwrap();
+            let ss = ((&k + n - &rr * &d % n) % n) * &inv % n;
+            if rr.is_zero() || ss.is_zero() || ((&rr + &ss) % n).is_zero() {
+                return pass(false, "degenerate-forgery");
+            }
+            put(&mut sig, 0, &rr);
+            put(&mut sig, 1, &ss);
+            class = "consistent-but-r-displaced";
+        }
         Tamper::Multi(region, m) => {
             let (lo, hi, name) = match region % 3 {
                 0 => (0, 32, "multi-r"),
@@ -338,6 +378,7 @@ pub fn tamper_strategy() -> impl Strategy<Value = Tamper> {
         3 => (0..12u8).prop_map(Tamper::AltEncoding),
         3 => (1..6u8).prop_map(Tamper::KeyRep),
         2 => any::<u64>().prop_map(Tamper::KeyOrderTwoForged),
+        3 => (0..32u8).prop_map(Tamper::DisplacedR),
     ]
 }
 
@@ -360,7 +401,7 @@ pub fn run(ctx: &Ctx) {
     ctx.set_rule(
         "a case is (base, tampering): the base is a valid signature made by the *reference* signer for generated (d, ID, message, k); tamperings: every one of the 512 single-bit flips of r||s \
          (exhaustive per base), r or s replaced by {0, 1, n-1, n, n+1, 2^256-1, p, 2^255}, s = n-r, swapped r/s, r+n and s+n when they fit, message bit flip / truncation / extension, another ID, \
-         another key (-P, P+G, unrelated), every signature length 0..=130 (truncation, extension by zeros / 0xFF / random), independent random (r,s), the valid (r, s) re-encoded in 12 other ways (DER, DER variants, padded / prefixed / stripped components, hex text, doubled, OCTET STRING: none is 64 bytes, all must be rejected), multi-byte alterations of r / s / r||s that preserve the xor, the sum or the multiset of the bytes or words, the untouched signature, also under the same public key held in other Jacobian representations (as computed by g_mul, Z = 2, random Z, Z with Montgomery limbs [1,0,0,0], Z = p-1: not an alteration). \
+         another key (-P, P+G, unrelated), every signature length 0..=130 (truncation, extension by zeros / 0xFF / random), independent random (r,s), the valid (r, s) re-encoded in 12 other ways (DER, DER variants, padded / prefixed / stripped components, hex text, doubled, OCTET STRING: none is 64 bytes, all must be rejected), forgeries made with the signer's private key that are consistent in everything but the final comparison (r displaced by one of 29 offsets, s recomputed so that the verification point is unchanged), multi-byte alterations of r / s / r||s that preserve the xor, the sum or the multiset of the bytes or words, the untouched signature, also under the same public key held in other Jacobian representations (as computed by g_mul, Z = 2, random Z, Z with Montgomery limbs [1,0,0,0], Z = p-1: not an alteration). \
          Oracle: the reference verifier decides; the library must return Ok exactly when the reference accepts; a panic is a violation. Non-trivial: a case the reference rejects.",
     );
     ctx.assume("reference verifier (harness/src/refimpl/sm2.rs): independent verification equation and ZA; exactly-64-byte rule from the property statement");
@@ -433,7 +474,7 @@ pub fn run(ctx: &Ctx) {
     }, check);
 
     let nb3 = ctx.tier.pick(8, 100);
-    ctx.exhaustive("component_substitutions", "r/s edge values, s = n-r, swap, r+n, s+n, message/ID/key changes, untouched — for each base", move || {
+    ctx.exhaustive("component_substitutions", "r/s edge values, s = n-r, swap, r+n, s+n, message/ID/key changes, untouched, 29 forgeries made with the private key that are consistent up to the last comparison (r displaced by +-1, +-2, +-(p-n), +-2(p-n), p, +-(2^256-p), +-(2^256-n), 2^256, powers of two, n/2, +-x1, -2x1, +-e, ...) — for each base", move || {
         let mut v = Vec::new();
         for b in fixed_bases(seed ^ 0x22, nb3) {
             for comp in 0..2u8 {
@@ -449,6 +490,9 @@ pub fn run(ctx: &Ctx) {
             }
             for k in 0..4u64 {
                 v.push(Case { base: b.clone(), tamper: Tamper::KeyOrderTwoForged(k) });
+            }
+            for k in 0..29u8 {
+                v.push(Case { base: b.clone(), tamper: Tamper::DisplacedR(k) });
             }
             for t in [Tamper::None, Tamper::InfinityForgery, Tamper::SEqualsNMinusR, Tamper::SwapRS, Tamper::RPlusN, Tamper::SPlusN, Tamper::MsgFlipBit(0), Tamper::MsgFlipBit(0xFFFF_FFFF), Tamper::MsgTruncate, Tamper::MsgExtend(0), Tamper::KeyNeg, Tamper::KeyPlusG, Tamper::KeyOther(1)] {
                 v.push(Case { base: b.clone(), tamper: t });
